@@ -595,6 +595,9 @@ fn emit_name_section(cx: &mut EmitContext) {
         .module
         .types
         .iter()
+        // The types walrus keeps for function entry blocks are never emitted
+        // and have no index.
+        .filter(|typ| !typ.is_for_function_entry())
         .filter_map(|typ| typ.name.as_ref().map(|name| (typ, name)))
         .map(|(typ, name)| (cx.indices.get_type_index(typ.id()), name))
         .collect::<Vec<_>>();
